@@ -1228,6 +1228,18 @@ class Main {{
 
   function mk(k: int): (int) -> int = (x: int) -> x + k
 
+  function go(i: int, f: (int) -> int, acc: int): int =
+    if i >= {n1} {{ acc }} else {{ Main.go(i + 1, Main.mk(i), f(acc)) }}
+
+  function keep(i: int, f: (int) -> int, acc: int): int =
+    if i >= {n1} {{ acc }} else {{ Main.keep(i + 1, f, f(acc)) }}
+
+  function pairs(i: int, p: Pair, acc: int): int =
+    if i >= {n3} {{ acc }} else {{ Main.pairs(i + 1, Pair.init(acc, i), acc + p.b) }}
+
+  function cols(i: int, col: Color, acc: int): int =
+    if i >= {n2} {{ acc }} else {{ Main.cols(i + 1, Color.of(i + acc), acc + col.weight()) }}
+
   function app(f: (int) -> int, x: int): int = f(x)
 
   function blk(x: int): int = {{
@@ -1255,6 +1267,8 @@ class Main {{
     let _ = Process.println(Str.fromInt(Main.closures(start, {n1}, k, 0)));
     let _ = Process.println(Str.fromInt(Main.once(k, 5)));
     let _ = Process.println(Str.fromInt(Main.big(k)));
+    let _ = Process.println(Str.fromInt(Main.go(start, (x: int) -> x + 1, 1) + Main.keep(start, (x: int) -> x + 3, 1)));
+    let _ = Process.println(Str.fromInt(Main.pairs(start, Pair.init(k, k + 1), 2) + Main.cols(start, Color.Red(), 1)));
     Process.println("done")
   }}
 }}
@@ -1319,6 +1333,55 @@ def struct_family(rng):
         f"fn f0 2 struct s 2 p0 p1 while 2 i 0 ni cur s nxt {{ bin cc ge i {c} sif cc 0 {{ brk cur }} idx a cur 0 idx b cur 1 bin b2 add b i struct nxt 2 b2 a bin ni add i 1 }} fin idx x fin 0 idx y fin 1 bin z sub x y ret z end",
     ]
     return [parse_prog_text(t) for t in progs]
+
+
+def usepos_family():
+    """Deterministic: loops whose loop variable `v` is a closure / struct / int that CHANGES every
+    iteration and is read in exactly one syntactic position (callee, closure context, struct field,
+    indexed-access pointer, cast / is-pointer / not operand, call argument, operand, final assignment,
+    loop value of another variable), placed directly in the body, inside a SingleIf, inside an IfElse
+    branch, or inside a nested loop."""
+    getter = "fn f1 2 idx x p0 0 bin y add x p1 ret y end"
+    summer = "fn f2 2 idx x p0 0 idx z p0 1 bin y add x z bin w mul y p1 ret w end"
+    kinds = {
+        # position: (kind of v, use statements producing the int `u`)
+        "callee": ("clo", "icall v 1 acc u"),
+        "context": ("struct", "clo c f1 v icall c 1 3 u"),
+        "field": ("struct", "struct t 2 v 1 idx w t 0 idx u w 0"),
+        "pointer": ("struct", "idx u v 1"),
+        "cast": ("struct", "cast w v idx u w 0"),
+        "isp": ("struct", "isp u v"),
+        "arg": ("struct", "call f2 2 v 3 u"),
+        "not": ("int", "not u v"),
+        "operand": ("int", "bin u add v 5"),
+    }
+    out = []
+    for pos, (kind, use) in kinds.items():
+        if kind == "clo":
+            init, pre, nxt = "g0", "struct s0 2 p0 p1 clo g0 f1 s0", "struct sn 2 i acc clo nv f1 sn"
+        elif kind == "struct":
+            init, pre, nxt = "s0", "struct s0 2 p0 p1", "struct nv 2 acc i"
+        else:
+            init, pre, nxt = "1", "", "bin nv xor v 1"
+        for nest in ("direct", "sif", "ife", "loop"):
+            if nest == "direct":
+                mid = f"{use} bin nacc add acc u"
+            elif nest == "sif":
+                mid = f"bin odd and i 1 sif odd 0 {{ {use} call print 1 u _ }} bin nacc add acc i"
+            elif nest == "ife":
+                mid = f"bin odd and i 1 if odd {{ {use} }} {{ }} 1 fu u 7 bin nacc add acc fu"
+            else:
+                mid = (f"while 1 k 0 nk {{ bin c2 ge k 2 sif c2 0 {{ brk 0 }} {use} call print 1 u _ bin nk add k 1 }} _ "
+                       "bin nacc add acc i")
+            text = (f"fn f0 2 {pre} while 3 i 0 ni v {init} nv acc p1 nacc {{ bin cc ge i 4 sif cc 0 {{ brk acc }} {mid} {nxt} "
+                    f"bin ni add i 1 }} r ret r end {getter} {summer}").replace("  ", " ")
+            out.append(text)
+    # `v` only as final assignment / loop value of another variable / break value
+    out.append(f"fn f0 2 while 3 i 0 ni v 1 nv acc p1 nacc {{ bin cc ge i 4 sif cc 0 {{ brk acc }} bin odd and i 1 if odd {{ }} {{ }} 1 fu v 7 "
+               "bin nacc add acc fu bin nv xor v 3 bin ni add i 1 } r ret r end")
+    out.append("fn f0 2 while 3 i 0 ni v 1 nv w 0 v { bin cc ge i 4 sif cc 0 { brk w } bin nv add v i bin ni add i 1 } r ret r end")
+    out.append("fn f0 2 while 2 i 0 ni v p1 nv { bin cc ge i 4 sif cc 0 { brk v } bin nv add v i bin ni add i 1 } r ret r end")
+    return out
 
 
 def algopt_family():
@@ -1661,6 +1724,16 @@ def search_near(ctx, line):
             for b in toks:
                 if t[0] == "ccp" or True:
                     cands.append(f"{t[0]} {t[1]} {a} {b}")
+    elif t[0] in ("dceuse", "dceloop"):
+        lines = [f"prog dce 31 | 3,4;0,0;-5,7 | {pt}" for pt in usepos_family()]
+        outs = run_harness(lines)
+        for l, o in zip(lines, outs):
+            if not o.startswith("ok "):
+                ctx.violation(f"dead-code elimination removes something that is still read: {o[:200]}",
+                              {"protocol": "prog", "pass": "dce", "config_bits": 31, "args": [(3, 4), (0, 0), (-5, 7)],
+                               "program": l.split("|", 2)[2].strip(), "answer": o})
+                return True
+        return False
     elif t[0] == "algopt":
         lines = [f"prog loop 31 | 0,5;4,-2;-30,1 | {pt}" for pt in algopt_family()]
         outs = run_harness(lines)
@@ -1920,6 +1993,10 @@ def run(ctx):
                 cases.append((p_, 31, sargs, fns))
             for c_ in (16, 31, 24, 0):
                 cases.append(("rounds", c_, sargs, fns)); cases.append(("all", c_, sargs, fns))
+        for text in usepos_family():
+            fns = parse_prog_text(text)
+            for p_, c_ in (("dce", 31), ("loop", 31), ("rounds", 31), ("all", 31), ("all", 4)):
+                cases.append((p_, c_, [(3, 4), (0, 0), (-5, 7)], fns))
         for text in algopt_family():
             fns = parse_prog_text(text)
             for p_, c_ in (("loop", 31), ("rounds", 31), ("all", 4)):
@@ -1993,7 +2070,7 @@ def run(ctx):
         "source_program_lines_compared": sstats["lines"],
         "source_programs_changed_by_pass": len(sstats["changed"]),
         "source_sample": src_sample,
-        "rule": "kernel lines (fold/tgt/merge/trip/flex/order/unwrap/ccp/ivloop/ivorig/srloop/srorig/dce/licm/licmk/lvn/lvnw/cse/csek/inl/ivuse/algopt) over a boundary-heavy 32-bit distribution "
+        "rule": "kernel lines (fold/tgt/merge/trip/flex/order/unwrap/ccp/ivloop/ivorig/srloop/srorig/dce/licm/licmk/lvn/lvnw/cse/csek/inl/ivuse/algopt/dceuse/dceloop) over a boundary-heavy 32-bit distribution "
                 "(0, +-1, +-2, MIN, MIN+1, MAX, MAX-1, powers of two, sqrt(MAX), random) answered by the real functions/passes and by the Lean model; "
                 "generated int-only MIR programs (straight-line, if/else with phis, single-if, counting loops of all four guard kinds and both stride "
                 "signs, empty loops for the closed form, IV-elimination candidates, loops with 2-3 basic induction variables with distinct literal/parameter starts and derived variables of any of them live in prints/calls/accumulators, duplicated pure computations whose copy feeds every consuming position (call argument, operand, condition, if/else final assignment, break value, loop initial/loop value, return value), helper functions for inlining) run before/after each single pass, "
@@ -2023,7 +2100,8 @@ def run(ctx):
                                    "lvnSimple_preserves", "lvn_preserves", "lvnL_preserves", "iterLoop_preserves", "lvnLoop_preserves",
                                    "cse_hoist_order", "inlineBody_preserves", "inline_preserves", "ivelim_negative_multiplier_fixed",
                                    "phases_disjoint", "rounds_invariant", "lowering_disjoint", "unused_counter_irrelevant",
-                                   "licmF_hoisted_invariant", "licmF_kept_defs_variant", "cseC_never_hoists_div", "algopt_sound"],
+                                   "licmF_hoisted_invariant", "licmF_kept_defs_variant", "cseC_never_hoists_div", "algopt_sound",
+                                   "dceU_kept_uses_live", "dceU_removed_not_read", "dropped_loop_var_unused"],
         "pending": ["CSE: only trap-freedom/silence of the hoisted prefix is proved (cse_hoist_order); value equivalence of the rewritten branches is validated only",
                     "lvn: proved for blocks of Binary/call/Break, SingleIf and IfElse (with final assignments) over statement blocks, and for a While over such a body (initial values, loop values, every fuel); deeper nesting (loops inside branches, branches inside branches) is validated only",
                     "inlining: proved for a callee whose body is a block of Binary/call statements (fresh-name renaming, parameter substitution, return move); callee bodies with control flow, the cost model and recursion guards are validated only",
